@@ -946,7 +946,7 @@ func (e *Engine) convert(s *State, v Value, from, to types.Type, pos token.Pos) 
 				if fu, fnb := isUnsigned(from); fu && fnb <= n {
 					return x
 				}
-				return VInt{Mod(x.T, IntC(bigPow2(n)))}
+				return VInt{e.wrapUnsigned(s, x.T, n)}
 			}
 			// to signed
 			lo, hi, _ := intRange(tb)
